@@ -160,7 +160,7 @@ func genC45(r *Rand, n int, tier string, emit func(string)) {
 				if r.Chance(1, 3) {
 					ds = c45Stake(r, tas)
 				}
-				fmt.Fprintf(&sb, "%d:%s:%s", ds, b01(!r.Chance(1, 6)), b01(r.Chance(1, 4)))
+				fmt.Fprintf(&sb, "%d:%s:%s", ds, b01(!r.Chance(1, 4)), b01(r.Chance(1, 4)))
 			}
 		}
 		emit(sb.String())
